@@ -16,8 +16,8 @@ claimed = {
  "C04": ("symx: every action under catch_unwind over graph/bind/garbage/late-node templates, both build profiles", "5/C04"),
  "C06": ("symx: symbolic cutoff-kind assignment, per-node last-result reference model, invocation sets compared both ways", "5/C06"),
  "C05": ("symx: invocation log vs. dependency cone of live observers", "5/C05"),
- "C07": ("symx: every observer read after every action vs. last snapshot", "5/C07"),
- "C08": ("symx: five write operations with uninterpreted update functions; armed writes from node functions/handlers; get()/is_stable()/reader-argument validity queries", "5/C08"),
+ "C07": ("symx: every observer read after every action vs. last snapshot; reads from inside node functions, bind closures, update handlers and an expert node's observability callback", "5/C07"),
+ "C08": ("symx: five write operations with uninterpreted update functions; armed writes from node functions/handlers; also from an expert node's observability callback; get()/is_stable()/reader-argument validity queries", "5/C08"),
  "C12": ("symx (mostly structural): drop-counting guards and WeakIncr probes vs. reachability from live handles, all drop orders incl. the state, both profiles", "5/C12"),
  "C19": ("symx (configuration forked): height limit N, chain/bind heights around N, grow/shrink reconfiguration, cycles, foreign-state nodes, nested stabilise; both profiles", "5/C19"),
  "C20": ("symx: WeakIncr::strong_count oracle for sharing vs. re-invocation, calls from top level and from bind closures, recursive variant", "5/C20"),
@@ -26,10 +26,10 @@ claimed = {
  "C16": ("symx: per-key graph operators x 2 map types x 5 per-key function families x cutoff variants", "5/C16"),
  "C17": ("symx: user-function call log (role, key) vs. solver-decided set of differing keys", "5/C17"),
  "C18": ("Kani/CBMC bounded model checking of MergeOnce/MergeOnceWith (symbolic keys, lengths, orderings; unwinding assertions; cover witnesses) + symx over symmetric_fold of the three map types (symbolic values)", "5/C18"),
- "C13": ("symx: panic injected at a symbolic user-function invocation, caught; all-or-refuse check on every observer, refusal of further stabilise, drop under catch_unwind; both profiles", "5/C13"),
+ "C13": ("symx: panic injected at a symbolic user-function invocation, caught; all-or-refuse check on every observer, refusal of further stabilise (through stabilise and stabilise_debug), drop under catch_unwind; both profiles", "5/C13"),
  "C09": ("symx: expected notification per subscription derived from the reference, solver-decided change", "5/C09"),
  "C10": ("symx (structural): lifecycle model vs. returned Results over all op vectors", "5/C10"),
- "C11": ("symx + audit hook: IncrState::verif_audit after every action, both build profiles", "5/C11"),
+ "C11": ("symx + audit hook: IncrState::verif_audit after every action (graph, bind, expert, per-key map and height-limit reconfiguration histories), both build profiles", "5/C11"),
 }
 not_yet = {}
 props = [json.loads(l) for l in open('/verif/properties.jsonl')]
